@@ -568,7 +568,7 @@ fn execute(sys: &Sys, t: &Tables, local: &Local, vi: usize, a: &Action, sync_poo
     for linp in &a.inputs {
         let inp = &materialise(sys, t, linp);
         let before = local.blocks.clone();
-        let crash = a.crash_lost.then_some(bftsim::Crash { at: 0, applied: false });
+        let crash = a.crash_lost.then_some(bftsim::Crash { at: 0, applied: false, fail: false });
         let out = bftsim::step(&sys.w, vi, &local, inp, &Policy { crash, sync: sync_pool.to_vec() });
         steps += 1;
         sent_msgs.extend(out.sent.iter().cloned());
